@@ -29,6 +29,55 @@ CHECKS = {
             {"harnesses": [H + "ZZH2Parse"], "flags": VLQ_REDIRECT, "quick": GEN_ATOMS_Q, "thorough": GEN_ATOMS_T},
         ],
     },
+    "C03": {
+        "assumptions": [
+            "trees: every tree over the core expression nodes with <= 'budget' internal nodes built directly from ast constructors (operands of any precedence, no grouping added), wrapped in an expression statement, a let initialiser or a return inside a function declaration; callee/object positions hold identifier/member/index/call/group; assignment targets identifier/member/index",
+            "operators are enumerated by forking (their text is re-lexed); printer flags PrettyPrint and WriteSemicolons are solver variables; lexemes are concrete",
+            "the printed text is read back by the real lexer and parser in the same path; shapes compared ignoring grouping nodes",
+            "table lemma ZZH3pTables: one solver query over all 2^64 token-type values",
+        ],
+        "runs": [
+            {"harnesses": [H + "ZZH3pTables"]},
+            {"harnesses": [H + "ZZH3RoundTrip"], "quick": {"budget": 2, "atoms": 2, "funcs": 1}, "thorough": {"budget": 3, "atoms": 1, "funcs": 0}},
+            {"harnesses": [H + "ZZH3RoundTrip"], "quick": {"budget": 1, "atoms": 7, "funcs": 1}, "thorough": {"budget": 2, "atoms": 7, "funcs": 1}},
+        ],
+    },
+    "C06": {
+        "assumptions": GEN_ASSUME + [
+            "programs are generated with concrete lexemes and operators (their text is re-read); parsed by the real parser through the token stub, compiled compact and pretty, and both outputs are re-read by the real lexer and parser in the same path",
+            "options: semicolons on/off (solver variable), indent unit from {2 spaces, tab, 0, 4, 1, 8} (first 'indents' of them)",
+            "trivia: <= 'trivia' tokens (any token that may follow a line break, not inside a for header) carry one of 5 comment/blank-line shapes; comment text concrete here (symbolic in C15)",
+            "semicolon clause: outputs compared after removing statement-terminating ';' tokens (located with the reference scanner R2; for-header separators kept) - the position of a kept terminator is not constrained",
+        ],
+        "runs": [
+            {"harnesses": [H + "ZZH6Pretty"], "flags": VLQ_REDIRECT, "quick": dict(GEN_Q, trivia=0, indents=2), "thorough": dict(GEN_Q, trivia=0, indents=6)},
+            {"harnesses": [H + "ZZH6Pretty"], "flags": VLQ_REDIRECT, "quick": dict(GEN_Q, budget=1, trivia=1, indents=1, triviakinds=5), "thorough": dict(GEN_Q, trivia=1, indents=1, triviakinds=3)},
+        ],
+    },
+    "C08": {
+        "assumptions": GEN_ASSUME + [
+            "token start positions are solver variables (line, column in 0..2^20); generated positions are located in the final (trimmed) Code with the reference scanner R2; columns are counted in bytes",
+            "output tokens are aligned with source tokens by order after dropping ';' (C01/C06 decide that the sequences agree)",
+            "encodeVLQ replaced by its contract (C09 H9a) so that digit counts do not fork; decoded by the reference decoder R1",
+        ],
+        "runs": [
+            {"harnesses": [H + "ZZH8SourceMap"], "flags": VLQ_REDIRECT, "quick": dict(GEN_Q, budget=1, atoms=2, concretepos=0, pretty=0), "thorough": dict(GEN_Q, atoms=2, concretepos=0, pretty=0)},
+            {"harnesses": [H + "ZZH8SourceMap"], "flags": VLQ_REDIRECT, "quick": dict(GEN_Q, budget=1, atoms=2, concretepos=0, pretty=1), "thorough": dict(GEN_Q, atoms=2, concretepos=0, pretty=1)},
+            {"harnesses": [H + "ZZH8SourceMap"], "flags": VLQ_REDIRECT, "quick": dict(GEN_Q, budget=1, concretepos=0, pretty=1, trivia=1, triviakinds=5), "thorough": dict(GEN_Q, concretepos=0, pretty=1, trivia=1, triviakinds=3)},
+        ],
+    },
+    "C15": {
+        "assumptions": GEN_ASSUME + [
+            "trivia sites: first token of a statement, closing brace of a block or function body, end of input; <= 'trivia' decorated tokens per program; 5 shapes (own-line, trailing, blank line, blank line + two comments, trailing + own-line)",
+            "comment text: 1..'commentlen' solver-quantified printable ASCII bytes (0x20..0x7e, last byte not a space)",
+            "comments are located in the output by the reference scanner R2; attachment of comments to tokens by the lexer is C10's trivia clause",
+            "blank-line separation is required where a statement follows a sibling statement (not at the start of the input, not before a closing brace or the end)",
+        ],
+        "runs": [
+            {"harnesses": [H + "ZZH15Comments"], "flags": VLQ_REDIRECT, "quick": dict(GEN_Q, budget=1, trivia=1, triviakinds=5, commentlen=2), "thorough": dict(GEN_Q, trivia=1, triviakinds=5, commentlen=2)},
+            {"harnesses": [H + "ZZH15Comments"], "flags": VLQ_REDIRECT, "quick": dict(GEN_Q, budget=1, stmts=1, trivia=2, triviakinds=2, commentlen=1), "thorough": dict(GEN_Q, budget=1, trivia=2, triviakinds=3, commentlen=1)},
+        ],
+    },
     "C04": {
         "assumptions": GEN_ASSUME + SCRIPT_ASSUME + [
             "interceptor configurations: {1 statement}, {1 expression}, {1 token}, {2,2,2}, {3,3,1}, {1,2,0 installed through Install}; the wrapper code is uniform in chain length, 8 is not reached",
@@ -133,6 +182,22 @@ META = {
     "C02": {
         "text": "Bounded symbolic model checking of the real parser on every generated subset program within the node budget: the program is unparsed to a token script in which operator identities (per precedence class), all permitted line breaks and all positions are solver variables, parsed by the real parser, and the resulting tree must equal the generated tree (ECMAScript precedence, associativity, ASI boundaries, restricted productions) on every feasible path.",
         "design_ref": "DESIGN.md §7 C02", "note": _TRUST,
+    },
+    "C03": {
+        "text": "Bounded symbolic model checking of the printers against the real lexer and parser: every tree over the core nodes within the node budget (every parent/child kind and operator pair on every side) is printed compact or pretty (flags solver-quantified), the text is parsed back in the same path and must give the same shape, and compiling the re-parsed tree must reproduce the text byte for byte; the printer/parser precedence tables are compared for all 2^64 token types in one query.",
+        "design_ref": "DESIGN.md §7 C03", "note": _TRUST + " Outside: trees above the node budget, custom plugin nodes, randomly generated deeper trees.",
+    },
+    "C06": {
+        "text": "Bounded symbolic model checking of the pretty printer's deferred-whitespace state machine on every generated program within the budget, with comments/blank lines on any token: pretty and compact outputs are re-read by the real lexer and parser and must give the generated tree; formatting the formatted output is a byte-for-byte fixed point; indent options change only leading whitespace; the semicolon option changes only statement terminators.",
+        "design_ref": "DESIGN.md §7 C06", "note": _TRUST,
+    },
+    "C08": {
+        "text": "Bounded symbolic model checking of source-map generation end to end (parser stub -> Compile().WithSourceMap -> real encodeMappings -> reference decoder): with all token start positions solver variables, every decoded segment must sit on the start of a token of the generated code (found by an independent scanner), carry the source start of the same lexeme, be named iff it is an identifier, every identifier must be covered, and segments must be ordered - for compact and pretty output, with and without comments.",
+        "design_ref": "DESIGN.md §7 C08", "note": _TRUST + " Start positions themselves are C10's lemma.",
+    },
+    "C15": {
+        "text": "Bounded symbolic model checking of comment replay: programs decorated at statement boundaries (incl. closing braces and end of input) with comments of solver-quantified printable text are compiled; an independent scanner must find every comment verbatim, once, in order, in front of the same token in the pretty output, blank-line separation kept; compact output has no comments; the code tokens of both outputs equal those of the undecorated program.",
+        "design_ref": "DESIGN.md §7 C15", "note": _TRUST,
     },
     "C04": {
         "text": "Bounded symbolic model checking of the interceptor chains: on every generated program and on arbitrary malformed token buffers, parsing with pass-through statement/expression/token interceptors (six configurations, direct and via Install) gives the same tree, errors and compact output as without; interceptors run once per step in installation order on one current token, which is the first token of the construct next() returns; a re-entrant expression interceptor obtains the generated (default) tree at every nesting depth with operators solver-quantified; byte-level token interceptors run once per token on the lexeme's first byte.",
